@@ -234,13 +234,19 @@ func (g *gen) rectPolygon() string {
 		pts[i][rapid.IntRange(0, 1).Draw(t, "raxis")] += rapid.SampledFrom([]int{-3, -1, 1, 2, 5}).Draw(t, "rdelta")
 	}
 	var parts []string
-	for _, p := range pts {
-		parts = append(parts, fmt.Sprintf("[%d,%d]", p[0], p[1]))
+	zdims := rapid.SampledFrom([]int{0, 0, 0, 1, 2}).Draw(t, "rz") // sometimes a rectangle with z / m ordinates
+	for i, p := range pts {
+		pos := fmt.Sprintf("[%d,%d", p[0], p[1])
+		for k := 0; k < zdims; k++ {
+			pos += fmt.Sprintf(",%d", (i%4)*10+k+1)
+		}
+		parts = append(parts, pos+"]")
 	}
 	return "[[" + strings.Join(parts, ",") + "]]"
 }
 
-var keyPool = []string{`"id"`, `"bbox"`, `"properties"`, `"foo"`, `"a b"`, `"é"`, `"crs"`, `"Type"`, `"x\"y"`, `""`, `"name"`, `"foo"`, `"title"`}
+var keyPool = []string{`"id"`, `"bbox"`, `"properties"`, `"foo"`, `"a b"`, `"é"`, `"crs"`, `"Type"`, `"x\"y"`, `""`, `"name"`, `"foo"`, `"title"`,
+	`"a\u0001b"`, `"\u000bv"`, `"del\u007f"`, "\"raw\x7fdel\"", `"\ud83d\ude00"`, `"nl\nkey"`, `"\u00e9\u0000"`}
 
 func (g *gen) jsonValue(depth int) string {
 	t := g.t
@@ -429,10 +435,10 @@ func Doc(t *rapid.T, o Opts) string {
 		s = g.ws() + s + g.ws()
 	}
 	if g.mutate("trailing") {
-		s += rapid.SampledFrom([]string{"x", "{}", ",", "]", "\x00", "null", "\ufeff", "}"}).Draw(t, "garbage")
+		s += rapid.SampledFrom([]string{"x", "{}", ",", "]", "\x00", "null", "\ufeff", "}", "\v", "\f", "\u00a0", "\u0085", "\u2003", "\u3000"}).Draw(t, "garbage")
 	}
 	if g.mutate("leading") {
-		s = rapid.SampledFrom([]string{"\ufeff", "x", "[", "\x00", "\x01", "//c\n", "\v"}).Draw(t, "leadgarbage") + s
+		s = rapid.SampledFrom([]string{"\ufeff", "x", "[", "\x00", "\x01", "//c\n", "\v", "\f", "\u00a0", "\u0085", "\u2003", "\u3000"}).Draw(t, "leadgarbage") + s
 	}
 	if g.mutate("truncate") && len(s) > 2 {
 		s = s[:rapid.IntRange(1, len(s)-1).Draw(t, "cut")]
